@@ -362,7 +362,7 @@ func serTraceQL(s *traceql_parser.TraceQLScript) (string, error) {
 // ---- planner contexts
 type tqctx struct {
 	From, To int64
-	Zone     int // seconds east of UTC
+	Zone     int // seconds east of UTC: the zone of ctx.From / ctx.To and of the process (time.Local); the date bounds must not depend on it
 	Limit    int64
 	Cluster  bool
 	RndMax   int
@@ -379,7 +379,7 @@ func genTqCtx(r *h.Rng) tqctx {
 		c.Zone = h.Pick(r, []int{3600, -3600, 5*3600 + 1800, -8 * 3600, 14 * 3600, -12 * 3600})
 	}
 	if r.Chance(15) {
-		// around midnight: the date bounds are formatted in the zone of ctx.From / ctx.To
+		// around midnight UTC: a date bound rendered in the zone of ctx.From / ctx.To or in time.Local would differ
 		c.From = (base - base%86400 + int64(h.Pick(r, []int{0, 1, 86399, 43200}))) * 1e9
 		c.To = c.From + span
 	}
@@ -395,6 +395,7 @@ func genTqCtx(r *h.Rng) tqctx {
 
 func (c tqctx) planner() *shared.PlannerContext {
 	zone := time.FixedZone("z", c.Zone)
+	time.Local = zone // the process zone varies too (vcheck runs one property per process, single goroutine here)
 	return &shared.PlannerContext{
 		From: time.Unix(0, c.From).In(zone), To: time.Unix(0, c.To).In(zone), Limit: c.Limit, IsCluster: c.Cluster,
 		TracesAttrsTable: "tempo_traces_attrs_gin", TracesAttrsDistTable: "tempo_traces_attrs_gin_dist",
